@@ -18,7 +18,7 @@ Touch     == [i \in TextIds |-> EffTouch(Sem[i].effs)]
 ParamOnly == [i \in TextIds |-> \A k \in DOMAIN TextTable[i] : IsParamByte(TextTable[i][k])]
 
 \* kinds: "S" AnsiString, "A" AnsiStr, "P" plain str, "N" not (yet) allocated
-Absent == [k |-> "N", t |-> << >>, s |-> << >>, p |-> << >>, b |-> 0]
+Absent == [k |-> "N", t |-> << >>, s |-> << >>, p |-> << >>, q |-> << >>, b |-> 0, f |-> << >>]
 
 IsVal(v)     == v.k \in {"S", "A", "P"} /\ v.b = 0
 WellShaped(v) == Len(v.s) = Len(v.t)
